@@ -140,9 +140,10 @@ def scan_table(P, rep):
         csym = None
         for e, t in p.conds:
             sh = sx.show(e)
-            m = re.match(r"^\((\w+)@loop == 0\)$", sh)
+            m = re.match(r"^\((\w+)@loop (==|!=|>) 0\)$", sh)
             if m:
-                czero = t
+                # the nesting counter is or is not zero, whichever way the test is written
+                czero = t if m.group(2) == "==" else (not t)
         # action
         if p.exit == "loop":
             dc = 0
